@@ -375,6 +375,44 @@ impl Scenario for C07 {
                 b.push(Step::Unwrap { blob, node, with: with_u.clone(), faults: vec![], as_kind: None });
             }
         }
+        // the same salt and password under different cost parameters, one after the other on the same
+        // node (from a conforming writer and from the library with a scripted salt): each blob is keyed
+        // by its own parameters
+        if b.rng.chance(1, 2) {
+            let salt_len = if matches!(f, 1 | 3) { 32 } else { 16 };
+            let nonce_len = if matches!(f, 1 | 3) { 16 } else { 24 };
+            let salt = crate::prng::Rng::new(b.ev_seed()).bytes(salt_len);
+            let pwx = Bytes::hex(b"same salt, same password");
+            let with = SecretRef::Password { bytes: pwx };
+            let seq: Vec<PwParams> = if matches!(f, 1 | 3) {
+                vec![PwParams::Iter(1000), PwParams::Iter(1500), PwParams::Iter(2000), PwParams::Iter(1000)]
+            } else {
+                vec![PwParams::Argon(8192, 1, 1), PwParams::Argon(8192, 2, 1), PwParams::Argon(16384, 1, 1), PwParams::Argon(8192, 1, 1)]
+            };
+            let mut blobs = Vec::new();
+            for (i, params) in seq.into_iter().enumerate() {
+                let blob = b.blob_slot();
+                let (key, _) = if i % 2 == 0 { (fk.local, Kind::Local) } else { (fk.secret, Kind::Secret) };
+                if b.rng.bool() {
+                    let mut e = salt.clone();
+                    e.extend(crate::prng::Rng::new(b.ev_seed()).bytes(nonce_len));
+                    b.push(Step::RefWrap { blob, family: f, wk: WrapKind::Pw, key, with: with.clone(), params, entropy: Bytes::hex(&e) });
+                } else {
+                    let writer = b.rng.usize_below(nodes.len());
+                    let rng = RngSpec::Script { draws: vec![hex::encode(&salt)], seed: b.ev_seed() };
+                    b.push(Step::Wrap { blob, node: writer, wk: WrapKind::Pw, key, with: with.clone(), params, rng });
+                }
+                blobs.push(blob);
+            }
+            for node in 0..nodes.len() {
+                for &blob in &blobs {
+                    b.push(Step::Unwrap { blob, node, with: with.clone(), faults: vec![], as_kind: None });
+                }
+                for &blob in blobs.iter().rev() {
+                    b.push(Step::Unwrap { blob, node, with: with.clone(), faults: vec![], as_kind: None });
+                }
+            }
+        }
         // Argon2id with parallelism > 1 (RustCrypto backends only: libsodium cannot compute it; the
         // reference follows through a known-answer table made with a third implementation)
         if matches!(f, 2 | 4) {
